@@ -26,6 +26,7 @@ func monitor(rep *emit.Report, c *caseRun) {
 	transitionTarget := int64(-1)
 	nEp := 1 // epochs that exist at the current step
 	expectPut := int64(-1)
+	reached := map[int64]bool{} // rounds for which a threshold of valid partials of distinct live indices was counted
 	// C05 catch-up: a beacon appended by the aggregator while the node is behind the round of its
 	// last tick makes the node sign the next round after the catch-up period, without waiting for
 	// the next tick
@@ -61,6 +62,7 @@ func monitor(rep *emit.Report, c *caseRun) {
 			}
 		}
 		if valid >= thr {
+			reached[round] = true
 			// the aggregator recovers, flushes every cached round up to this one, and appends the
 			// beacon if it is the successor of the head (built on the head's signature)
 			if round == int64(headBefore)+1 && prev == int64(headBefore) {
@@ -133,7 +135,11 @@ func monitor(rep *emit.Report, c *caseRun) {
 				rep.Fail("C04-emission-invalid", "emitted partial does not verify under the node's own share", in)
 			}
 			if e.Valid {
-				addContrib(s.obs.HeadBefore, int64(e.Round), e.Prev, w.Me, c.t.bytes[e.SigID], c.t.bytes[e.Prev])
+				own := w.Me
+				if i, err := w.Sch.ThresholdScheme.IndexOf(c.t.bytes[e.SigID]); err == nil {
+					own = i
+				}
+				addContrib(s.obs.HeadBefore, int64(e.Round), e.Prev, own, c.t.bytes[e.SigID], c.t.bytes[e.Prev])
 			}
 		}
 		// C07 / C03: once the last pre-transition round is stored only shares of the new group count:
@@ -168,7 +174,7 @@ func monitor(rep *emit.Report, c *caseRun) {
 					}
 				}
 			}
-			if !s.obs.Rejected && s.obs.Valid && w.Epochs[epoch].IsMember(s.ev.Claim) && s.ev.Claim != w.Me {
+			if !s.obs.Rejected && s.obs.Valid && w.Epochs[epoch].IsMember(s.ev.Claim) && s.ev.Claim != w.Epochs[epoch].Me {
 				addContrib(s.obs.HeadBefore, int64(s.ev.Round), c.t.id(s.obs.PrevBytes), s.ev.Claim, s.obs.SigBytes, s.obs.PrevBytes)
 			}
 		}
@@ -176,6 +182,12 @@ func monitor(rep *emit.Report, c *caseRun) {
 			// C01: every stored beacon verifies
 			if !p.Verifies {
 				rep.Fail("C01-unverifiable-beacon-stored", "a stored beacon does not verify under the group key", in)
+			}
+			// C03: a beacon the aggregator appends while handling a partial (no sync stream involved) was
+			// recovered from valid partials of at least a threshold of distinct indices of the live group,
+			// the node's own released partial included -- copies of it coming back from the network do not count
+			if s.ev.Kind == "part" && !s.syncOnAfter && len(s.obs.Syncs) == 0 && p.Round > 0 && !reached[int64(p.Round)] {
+				rep.Fail("C03-beacon-from-fewer-than-threshold", fmt.Sprintf("round %d was stored while handling a partial although fewer than the threshold (%d) of distinct live members had contributed a valid partial for it", p.Round, thr), in)
 			}
 			// C02: gap-free, written once
 			if int64(p.Round) != lastRound+1 && !(p.Round == 0 && lastRound >= 0) {
